@@ -19,6 +19,7 @@ import ZygoVerif.Proofs.ReadPrintMain
 import ZygoVerif.Proofs.LiteralValue
 import ZygoVerif.Proofs.LiteralNotations
 import ZygoVerif.Proofs.LiteralSpec
+import ZygoVerif.Proofs.EvalPrint
 namespace ZygoVerif.Props.C12
 open ZygoVerif ZygoVerif.Lexer ZygoVerif.Parser ZygoVerif.PrintData ZygoVerif.EvalData
 open ZygoVerif.Spec.DataValue ZygoVerif.ReadPrint
@@ -406,6 +407,27 @@ the parser and `MakeHash`/`HashSet` (Model/EvalData). -/
 def EvalPrintJsonlike : Prop :=
   ∀ (ff : FloatFmt), FloatLaw ff → ∀ v : JV, isJsonLike v = true →
     (readOne (printJ ff v)).bind evalData = some v
+
+/-- **`eval_print_jsonlike_partial`** — proved part of `EvalPrintJsonlike`, by structural induction (any
+nesting depth, any length): every JSON-like value WITHOUT A HASH inside and with finite floats — 64-bit
+integers, finite floats (relative to `FloatLaw`), strings of any runes, booleans, nil, arrays of such values
+nested to any depth — printed, read (`read_print_data_partial` on the data value `toRead v` that the text
+denotes) and evaluated (arrays element-wise, atoms to themselves) is the value again. `nil` is INCLUDED: it
+prints as `nil`, reads back as the symbol `nil` (the known finding of the data half), and that symbol
+evaluates to nil. Missing from the full statement: hashes (`{k:v …}` is read through the `{` look-ahead and
+`MakeHash`/`HashSet`: model vs implementation vs specification on every generated hash, `rt e` ops) and
+±Inf. -/
+theorem eval_print_jsonlike_partial (ff : FloatFmt) (hlaw : FloatLaw ff) (v : JV) (hj : isJsonLike v = true)
+    (hf : hashFree v = true) : (readOne (printJ ff v)).bind evalData = some v :=
+  eval_print_hashFree ff hlaw v hj hf
+
+/-- non-vacuity: `[1 "a\"b" [nil true 2.5] []]` is JSON-like and hash-free -/
+example : isJsonLike (.arr [.int 1, .str ['a', '"', 'b'], .arr [.nil, .bool true, .flt 0x4004000000000000 false], .arr []]) = true ∧
+    hashFree (.arr [.int 1, .str ['a', '"', 'b'], .arr [.nil, .bool true, .flt 0x4004000000000000 false], .arr []]) = true := by
+  decide +kernel
+
+/-- what `nil` does on the way: printed `nil`, read as the symbol, evaluated to nil -/
+example : toRead .nil = .sym "nil".toList false false ∧ evalData (.sym "nil".toList false false) = some .nil := ⟨rfl, by rfl⟩
 
 /-- fix C12-04 at work: a string key holding a quote and a backslash is printed as a string
 literal that reads back (the escapes are those of `string_literal_roundtrip`) -/
